@@ -153,9 +153,12 @@ CHECKS.update({
     "C12": dict(
         text="PARTIAL by proof, completed by differential. Theorems: the default constants and the theta / first-step formulas are the reference ones (tables "
              "regenerated from main.py, linesearch.py, bfgsmats.py on every run by translate/defaults2lean.py and checked by kernel evaluation), theta_model, "
-             "iter0_step_cap; the deviations are theorems elsewhere (C03/C11). That the evaluation-point sequence coincides with SciPy's L-BFGS-B is decided "
+             "iter0_step_cap; inv_chain_inverts_bfgs_chain, newton_point_is_two_loop, complete_iteration_is_lbfgs, run_iteration_is_lbfgs (at every loop-head state a fresh run of the "
+             "complete model reaches, while no bound interferes and the floor on f'' is inactive, the iteration aims its line search at the L-BFGS quasi-Newton point x - twoLoop(I/theta, stored pairs)(g): "
+             "the inverse-update chain inverts the direct-update chain the solver's matrix is, and the model's subspace step is the full Newton step); "
+             "the deviations are theorems elsewhere (C03/C11). That the evaluation-point sequence coincides with SciPy's L-BFGS-B is decided "
              "on real runs: first 12 iterations, maxcor 1..8, compared point by point up to the first line search that triggers a documented deviation "
-             "(detected from the port's own trace) or the round-off regime; optimal values on the convex box problems of C01.",
+             "(detected from the port's own trace) or the round-off regime; the point handed to every line search of those runs against a textbook two-loop recursion; optimal values on the convex box problems of C01.",
         note=SHELL_NOTE + " SciPy's L-BFGS-B is taken as the reference Algorithm 778.",
         technique="Lean 4 kernel-evaluated tables regenerated from the source (translator) + bit-exact replay + differential against SciPy's L-BFGS-B evaluation points",
         design_ref="DESIGN.md §4 C12"),
@@ -196,8 +199,8 @@ CHECKS.update({
         text="Theorems: pairs_are_diffs, pairs_le_maxcor, pairs_curvature (fresh runs without redefinition: result and every callback state carry consecutive "
              "differences of a bounded history of coherent (point, user's gradient there x scale) values whose consecutive members passed the curvature test — "
              "a memory invariant proved through the whole driver by induction), with redefinitions C13 redefinition_pairs_curvature, restart without iteration C06 restart_noiter_same_pairs; two_loop_eq_chain / two_loop_spd (Props/C18TwoLoop: SciPy's two-loop recursion in LbfgsInvHessProduct._matvec returns the product with the dense matrix of the pair-by-pair inverse BFGS recursion, hence an SPD operator); curv_pos, inv_bfgs_posdef / inv_bfgs_chain_posdef (the inverse-BFGS operator of "
-             "any positive-curvature pair list is SPD), diag_by_unit_vectors. sk/yk of every state are part of the bit-exact replay; on real runs they are "
-             "searched for as exact differences of a chronological chain in the harness's visit log (restart chains, redefinitions, FD modes); the diagonal "
+             "any positive-curvature pair list is SPD), hess_inv_secant / hess_inv_is_inverse_bfgs (the operator maps the newest y to the newest s and is the inverse of the identity-started BFGS matrix of the pairs), diag_by_unit_vectors. sk/yk of every state are part of the bit-exact replay; on real runs they are "
+             "searched for as exact differences of a chronological chain in the harness's visit log (restart chains, redefinitions, FD modes; runs with failing line searches and memory resets, with a corpus of seeds on which a rejected pair is followed by a reset), the secant equation of every operator; the diagonal "
              "utility against todense() and an exact rational recursion. Known findings K2, K4, K1 reported as KNOWN-FINDING.",
         note=SHELL_NOTE, technique="Lean 4 proof (memory invariant by induction on fuel; matrix algebra) + bit-exact replay + visit-log chain search + exact-rational oracle for the diagonal utility",
         design_ref="DESIGN.md §4 C18"),
